@@ -1,6 +1,6 @@
 (* C12 - validate() is clean on every reachable state and never clean on a damaged one.  Statements only. *)
 From Coq Require Import List ZArith NArith.
-From DOS Require Import Base Store StoreProofs StoreLemmas Validate.
+From DOS Require Import Base Store StoreProofs StoreLemmas Validate ValidateScan.
 Import ListNotations.
 
 Section C12.
@@ -23,7 +23,26 @@ Proof. exact (validate_no_false_negative H inflate). Qed.
 
 Theorem C12_read_path_is_recovery : forall w k, Inv H inflate w -> lookup_impl inflate w k = stored inflate w k.
 Proof. exact (lookup_impl_stored H inflate). Qed.
+
+(* validate() AS THE CODE RUNS IT (ValidateScan.validate_f): pack ids from the index in increasing order; per pack the entries ordered by
+   offset, each re-read and compared only with the RUNNING end of its predecessor; loose files re-hashed.  A clean report of that scan,
+   on ANY world (whatever the damage), implies the abstract cleanliness above: every entry re-reads as its key and size and ALL pairs of
+   entries are disjoint - so the no-false-negative theorem applies to the report the code computes *)
+Theorem C12_clean_scan_is_clean : forall w,
+  NoDup (map rkey (db w)) ->
+  validate_f (rd_of H inflate w) (db w) (map fst (loose w)) (fun k => match get_loose w k with Some f => H (fdata f) | None => k end) = Some (([], [], []), []) ->
+  NoDup (map fst (loose w)) ->
+  validate_b H inflate w = true.
+Proof. exact (clean_scan_is_clean H inflate). Qed.
 End C12.
 Print Assumptions C12_no_false_positive.
 Print Assumptions C12_no_false_negative.
 Print Assumptions C12_read_path_is_recovery.
+Print Assumptions C12_clean_scan_is_clean.
+
+(* non-vacuity: two entries of pack 0, the second starting inside the first (index damage): the scan names it as overlapping;
+   with the offset repaired the scan is clean.  rd: every entry re-reads as recorded *)
+Example C12_scan_ex :
+  validate_f (fun r => Some (rkey r, rsize r)) [mkRow 1%N 0%Z 0 10 false 10; mkRow 2%N 0%Z 7 5 false 5] [] (fun k => k) = Some (([], [], [2%N]), []) /\
+  validate_f (fun r => Some (rkey r, rsize r)) [mkRow 1%N 0%Z 0 10 false 10; mkRow 2%N 0%Z 10 5 false 5] [] (fun k => k) = Some (([], [], []), []).
+Proof. vm_compute. split; reflexivity. Qed.
